@@ -60,3 +60,39 @@ Definition run_call (c : op_call) : option (list ind) :=
   | CallInheritance sc t o ps prev new => inherit sc t o ps prev new
   end.
 Definition run_session (calls : list op_call) : list (option (list ind)) := map run_call calls.
+
+(* ---- custom selection callables in selection_types.  Selection.__call__ calls a callable entry
+   directly (no default_selection_behaviour wrapper, hence no de-duplication by uid), so with a
+   user function the steady-state merge itself must not contain an individual twice. ---- *)
+Definition inherit_custom (f : list ind -> nat -> list ind) (sc : scheme) (pop_size : nat)
+           (prev new : list ind) : list ind :=
+  match sc with
+  | Generational => firstn pop_size new
+  | _ => f (steady_full prev new) pop_size
+  end.
+
+(* the user functions the driver passes (known to it, so the comparison can be exact) *)
+Inductive custom_sel := FirstN | LastN | TruncBest.
+Definition custom_fn (c : custom_sel) (l : list ind) (n : nat) : list ind :=
+  match c with
+  | FirstN => firstn n l                                 (* population[:n] *)
+  | LastN => skipn (length l - n) l                      (* population[-n:] *)
+  | TruncBest => firstn n (sort_desc worse l)            (* sorted(population, key=fitness, reverse=True)[:n] *)
+  end.
+
+Definition inh_custom_admits (sc : scheme) (c : custom_sel) (pop_size : nat) (prev new out : list ind) : bool :=
+  inds_eqb out (inherit_custom (custom_fn c) sc pop_size prev new).
+(* Selection.__call__ with a callable entry: the callable's own result *)
+Definition sel_custom_admits (c : custom_sel) (default_size : nat) (population : list ind) (pop_size : nat)
+           (out : list ind) : bool :=
+  inds_eqb out (custom_fn c population (if Nat.eqb pop_size 0 then default_size else pop_size)).
+
+(* what the property demands of Inheritance when the selection is a user function that returns
+   distinct members of its input, at most as many as requested: drawn from prev + new, at most
+   pop_size, and no individual twice whenever prev and new are individually repeat-free *)
+Definition inh_custom_holds_b (sc : scheme) (pop_size : nat) (prev new out : list ind) : bool :=
+  subset_b out (prev ++ new) && (length out <=? pop_size) &&
+  match sc with
+  | Generational => implb (nodup_uid new) (nodup_uid out)
+  | _ => implb (nodup_uid prev && nodup_uid new) (nodup_uid out)
+  end.
